@@ -234,7 +234,10 @@ def coords(case):
         q0 = rng.normal(size=(ny, nx))
         if k % 5 == 2:  # an all-zero source (night-time step) under a halo of one to three cells
             q0 = np.zeros((ny, nx))
-            halo = float(rng.uniform(1.0, 3.5) * max(xmax / nx, ymax / ny))
+            cmax, cmin = max(xmax / nx, ymax / ny), min(xmax / nx, ymax / ny)
+            # (a halo measured in the coarser cell pads the finer axis by thousands of cells when the two extents differ by orders of
+            # magnitude - gigabytes per worker; then the halo is measured in the finer cell and pads that axis only)
+            halo = float(rng.uniform(1.0, 3.5) * (cmax if cmax / cmin <= 20.0 else cmin))
         tup = dict(domain=(xmax, ymax), cells=(nx, ny), footprint=fp, halo=halo, levels=lv, zero_source=bool(not q0.any()))
         try:
             g, c, f = S(q0, z, prof, (xmax, ymax), lv, halo=halo, precision="double", footprint=fp,
